@@ -357,11 +357,21 @@ func whichField(d string) string {
 
 func c05Replay(args []string) error {
 	rep := newReport()
+	var rtw *TraceWriter
+	if p := argValue(args, "-readtrace", ""); p != "" {
+		var err error
+		if rtw, err = newTraceWriter(p); err != nil {
+			return err
+		}
+	}
+	readStride := argInt(args, "-readstride", 1)
+	readTraced, nline := 0, 0
 	err := readLines(argValue(args, "-in", "-"), func(line []byte) error {
 		var c c05Case
 		if err := json.Unmarshal(line, &c); err != nil {
 			return err
 		}
+		nline++
 		apis := []string{"fullToTrack", "metaToTrack"}
 		if c.Kind == "single" {
 			apis = []string{"fullToTrack", "full", "meta", "metaToTrack", "samples", "interval"}
@@ -403,6 +413,12 @@ func c05Replay(args []string) error {
 					}
 					file := cat(initSeg, segBytes)
 					exp := c.expected(shape.n)
+					// code -> spec: raw fields and returned samples of every track fragment, for FragmentRead.tla
+					if rtw != nil && api == "fullToTrack" && nline%readStride == 0 {
+						if d, _, err := traceFragmentReads(rtw, fmt.Sprintf("hist%d/%s/%s/n%d/x%v", nline, api, encoder, shape.n, shape.extras), file); err == nil {
+							readTraced += d
+						}
+					}
 					// (a) mp4ff's own reader, both decoders
 					for _, dn := range []string{"reader", "sr"} {
 						func() {
@@ -470,6 +486,13 @@ func c05Replay(args []string) error {
 		rep.Count(string(line), true, smp)
 		return nil
 	})
+	rep.Extra["read_traced_track_fragments"] = readTraced
+	if rtw != nil {
+		rep.Extra["read_trace_events"] = rtw.N
+		if err := rtw.Close(); err != nil {
+			return err
+		}
+	}
 	rep.Done()
 	return err
 }
